@@ -52,7 +52,9 @@ MANIFEST = dict(
     'pairwise different new names and leave every earlier file untouched, by induction over histories (k_writes_distinct); in arbitrary histories with '
     'deletions and backups no later output modifies a file and every produced name is new at that moment (history_never_modifies, produced_name_is_new); '
     'k outputs of one model are named name.ext, name~00.ext, ... in order and the repaired recycling reads the last one (same_name_sequence, recycle_reads_last; '
-    'the string order used today is wrong beyond 101 files: recycle_lex_not_latest); create_backup (backup_fresh). Parameter file: decode(encode v) = v for every value of the declared kind (param_roundtrip, bool coded "True"/"False", '
+    'the string order used today is wrong beyond 101 files: recycle_lex_not_latest); create_backup (backup_fresh; backup_first_free: first free number whatever numbers are in use); '
+    'files_of_type lists exactly name.ext and name~*.ext (files_of_type_exact), every saved output of the model (files_of_type_lists_own) and no output of another model unless one name is the '
+    'other followed by ~... (files_of_type_ignores_other_models, files_of_type_tilde_overlap). Parameter file: decode(encode v) = v for every value of the declared kind (param_roundtrip, bool coded "True"/"False", '
     'bool_spellings), lifted to every admitted value of every entry of the GENERATED default table (table_roundtrip + Generated.defaultParams_ok by decide); '
     'dump-then-read returns exactly the dumped set for all keys (file_roundtrip, keys_preserved, unknown_entry_ignored; Generated.default_file_roundtrip). '
     'Reports list every parameter (reports_list_every_parameter; F12 label = first ten characters: f12_label_short / f12_label_collision); statistics after '
@@ -64,8 +66,7 @@ MANIFEST = dict(
     note='Trusted: tomlkit dumps/parse inverse pair on TOML values (validated here against tomllib), pickle identity on RawResults, CPython number formatting, '
     'OS file system (no concurrent writers between the existence test and open). Partial: F12 identifies a parameter by the first ten characters of its name '
     '(format); "admissible" = accepted by the checks and of the declared kind (a Python bool stored in an int/float parameter is accepted by set_value but '
-    'not read back: C14.param_roundtrip_needs_type). Known findings: recycle picks the lexicographically last pickle (wrong beyond 101 files); '
-    'generate_flat_panel_dataframe(save_on_file=True) overwrites; LaTeX cells in exponent notation get ".0" appended; reports of quick_estimate results raise.',
+    'not read back: C14.param_roundtrip_needs_type). Defects found by this check and repaired in /repo (see KNOWN_FINDINGS.json): recycle picked the lexicographically last pickle (FC14-1), generate_flat_panel_dataframe(save_on_file=True) overwrote (FC14-2), LaTeX cells in exponent notation got ".0" appended (FC14-3), files_of_type read the model name as a glob pattern (FC14-5); still listed as known finding: reports of quick_estimate results raise (FC14-4).',
 )
 
 TRUSTED = [
